@@ -177,7 +177,7 @@ def main():
             "enable": "RUSTFLAGS=\"--cfg flacenc_verif\" via /verif/parsim/.cargo/config.toml; /repo/src is built through the shadow manifest "
                       "/verif/shadow/flacenc (regenerated from /repo/Cargo.toml on every run, adds the shuttle dependency). seamsim builds /repo with the guard off.",
             "baseline_off_cmd": "cd /repo && cargo test --workspace --no-fail-fast --offline",
-            "source_commits": ["1137d88", "d9d77ee", "4d03e51", "439d3d6"],
+            "source_commits": ["1137d88", "d9d77ee", "4d03e51", "439d3d6", "a807783"],
             "add_only": True,
         },
         "engines": [
